@@ -438,6 +438,10 @@ def sys_case(rng, cid, steps=None, nprog=None, big=False, script=None, mode=None
         t += 10
 
     reload()           # the first compile
+    if mode == "reload" and rng.chance(1, 2):
+        # the bytes of the binaries just written, read by the model's own decoder
+        for o in objs:
+            L.append("bindump " + o)
     if script is None:
         nsteps = rng.range(1, 5) if steps is None else steps
         script = []
@@ -687,6 +691,8 @@ def histogram(cases, impl):
                 h["switch_tables"] += 1
             elif t[0] == "R":
                 h["call_results"] += 1
+            elif t[0] == "binsum":
+                h["binary_files_decoded"] = h.get("binary_files_decoded", 0) + 1
             elif t[0] == "qs":
                 h["uqsort"] = h.get("uqsort", 0) + 1
             elif t[0] == "ft":
